@@ -33,6 +33,18 @@ func (m *Mutex) Lock() {
 	m.locked = true
 }
 
+// TryLock mirrors (*sync.Mutex).TryLock: a scheduling point (the outcome
+// depends on who runs first), never blocks.
+func (m *Mutex) TryLock() bool {
+	m.label()
+	vrt.Yield()
+	if m.locked {
+		return false
+	}
+	m.locked = true
+	return true
+}
+
 // Unlock releases the mutex (not a scheduling point).
 func (m *Mutex) Unlock() {
 	if vrt.Aborting() {
@@ -66,6 +78,28 @@ func (m *RWMutex) Lock() {
 	defer func() { m.wwait-- }()
 	vrt.Block(vrt.KLock, m.label(), m, func() bool { return !m.writer && m.readers == 0 })
 	m.writer = true
+}
+
+// TryLock mirrors (*sync.RWMutex).TryLock.
+func (m *RWMutex) TryLock() bool {
+	m.label()
+	vrt.Yield()
+	if m.writer || m.readers > 0 {
+		return false
+	}
+	m.writer = true
+	return true
+}
+
+// TryRLock mirrors (*sync.RWMutex).TryRLock.
+func (m *RWMutex) TryRLock() bool {
+	m.label()
+	vrt.Yield()
+	if m.writer || (m.readers > 0 && m.wwait > 0) {
+		return false
+	}
+	m.readers++
+	return true
 }
 
 // Unlock releases the write lock.
